@@ -243,13 +243,14 @@ class MultiProb(Problem):
 
 
 class UFProb(Problem):
-    """u' = F(u) with F an uninterpreted function (scalar).  The implicit solve returns a fresh variable w with the
+    """u' = F(u, t) with F an uninterpreted function (scalar, non-autonomous).  The implicit solve returns a fresh variable w with the
     axiom  w - factor*F(w) = rhs  (recorded in .axioms) -- unless the initial guess already solves the equation
     under the axioms registered via .hint(), in which case the guess is returned (contract of C12)."""
 
     dtype_u = SymMesh
     dtype_f = SymMesh
-    F = z3.Function('F', z3.RealSort(), z3.RealSort())
+    # non-autonomous: F(u, t), so that evaluation times matter too
+    F = z3.Function('F', z3.RealSort(), z3.RealSort(), z3.RealSort())
 
     def __init__(self):
         super().__init__(init=(1, None, ODT))
@@ -258,15 +259,15 @@ class UFProb(Problem):
 
     def eval_f(self, u, t):
         f = self.dtype_f(self.init)
-        f[0] = SymReal(UFProb.F(R(u[0])))
+        f[0] = SymReal(UFProb.F(R(u[0]), R(t)))
         return f
 
     def solve_system(self, rhs, factor, u0, t):
         self.nw += 1
         w = z3.Real(f'w!{id(self) % 9973}!{self.nw}')
-        self.axioms.append(w - R(factor) * UFProb.F(w) == R(rhs[0]))
+        self.axioms.append(w - R(factor) * UFProb.F(w, R(t)) == R(rhs[0]))
         # uniqueness of the solution of the implicit equation (contract: the solve is a function of rhs, factor)
-        self.axioms.append(z3.Implies(R(u0[0]) - R(factor) * UFProb.F(R(u0[0])) == R(rhs[0]), w == R(u0[0])))
+        self.axioms.append(z3.Implies(R(u0[0]) - R(factor) * UFProb.F(R(u0[0]), R(t)) == R(rhs[0]), w == R(u0[0])))
         me = self.dtype_u(self.init)
         me[0] = SymReal(w)
         return me
